@@ -86,6 +86,10 @@ pub fn run(args: &[u64], out: &mut Out) {
         // oracle: equality/order/hash agree with the (id, generation) pair
         let pa = (args[0] as u32, (args[0] >> 32) as u32);
         let pb = (args[1] as u32, (args[1] >> 32) as u32);
+        #[allow(clippy::nonminimal_bool)]
+        if (a != b) == (a == b) || (a != b) != (pa != pb) || (b == a) != (a == b) || (a < b) != (pa < pb) || (a >= b) != (pa >= pb) {
+            out.flag("!= / == / < / >= on handles disagree with each other or with the (id, generation) pair");
+        }
         if (a == b) != (pa == pb) {
             out.flag("== disagrees with (id, generation) equality");
         }
